@@ -366,6 +366,9 @@ def main(prop, tier, seed):
     # ------------------------------------------------------------------ verdict
     print(f"[{prop}] tier={tier} contracts={len(ctxs)} obligations={n_ob} discharged={n_dis} "
           f"solver={solver_s:.1f}s wall={wall:.1f}s cosim_cycles={cosim_cycles}")
+    if os.environ.get("HWV_VERBOSE"):
+        for r in sorted(results, key=lambda r: -r["seconds"])[:8]:
+            print(f"   slow: {r['seconds']:7.2f}s {r['result']:7s} {r['name']}")
     for l in known_lines:
         print(l)
     if broken:
